@@ -232,14 +232,37 @@ fn m4_exact<S: Sc>(d: &mut Draw) -> Outcome {
 }
 
 fn m3_exact<S: Sc>(d: &mut Draw) -> Outcome {
-    // as a 2-D affine transform
-    let scaled = d.chance(1, 4);
-    let (s, t) = if scaled { (g_affine3::<S>(d) * S::gen_nz(d), g_affine3::<S>(d) * S::gen_nz(d)) } else { (g_affine3::<S>(d), g_affine3::<S>(d)) };
+    // as a 2-D transform: affine, affine times a scalar, or - for the point clauses - fully projective (a generic 3x3
+    // matrix, half of the time with its last column set to (0,0,1): no translation, but a bottom row that still makes
+    // the homogeneous coordinate of an image differ from 1)
+    let kind = d.int(0, 5);
+    let scaled = kind == 0;
+    let projective = kind == 1 || kind == 2;
+    let proj = |d: &mut Draw| -> Matrix3<S> {
+        let mut m = g_lin::<S>(d, 3);
+        if d.bool() {
+            m.e[2][0] = S::zero();
+            m.e[2][1] = S::zero();
+            m.e[2][2] = S::one();
+        }
+        mk_m3(&m)
+    };
+    let (s, t) = if scaled { (g_affine3::<S>(d) * S::gen_nz(d), g_affine3::<S>(d) * S::gen_nz(d)) } else if projective { (if d.bool() { proj(d) } else { g_affine3::<S>(d) }, proj(d)) } else { (g_affine3::<S>(d), g_affine3::<S>(d)) };
     let (p, v) = (gp2::<S>(d), gv2::<S>(d));
     d.note("2-D s", &s);
     d.note("2-D t", &t);
     let det = t.rm().det();
-    vcore::tryo!(laws::<S, Point2<S>, Matrix3<S>>(&s, &t, p, v, !scaled, det != S::zero(), "Matrix3 as Transform<Point2>"));
+    vcore::tryo!(laws::<S, Point2<S>, Matrix3<S>>(&s, &t, p, v, !scaled && !projective, det != S::zero(), "Matrix3 as Transform<Point2>"));
+    if projective {
+        // the documented action on a point: M (x, y, 1) divided by its third coordinate
+        let a = t.rm();
+        let w = a.e[0][2] * p.x + a.e[1][2] * p.y + a.e[2][2];
+        if w != S::zero() {
+            let want: Vec<S> = (0..2).map(|r| (a.e[0][r] * p.x + a.e[1][r] * p.y + a.e[2][r]) / w).collect();
+            let got = t.transform_point(p);
+            ensure_eq!(vec![got.x, got.y], want, "projective-point-2d", "a projective Matrix3 applied to a 2-D point is M (x,y,1) divided by its third coordinate");
+        }
+    }
     if scaled && det != S::zero() {
         let a = t.rm();
         let kk = a.e[2][2];
@@ -255,7 +278,7 @@ fn m3_exact<S: Sc>(d: &mut Draw) -> Outcome {
     let det3 = t3.rm().det();
     vcore::tryo!(laws::<S, Point3<S>, Matrix3<S>>(&s3, &t3, p3, w3, true, det3 != S::zero(), "Matrix3 as Transform<Point3>"));
     let nt = t.rm().block(2).all_nonzero() && t3.rm().all_nonzero();
-    pass(if det == S::zero() || det3 == S::zero() { "singular" } else if nt { "generic" } else { "sparse" }, nt)
+    pass(if det == S::zero() || det3 == S::zero() { "singular" } else if projective { "projective-2d" } else if nt { "generic" } else { "sparse" }, nt)
 }
 
 // ---- f64: the scale threshold ---------------------------------------------------------------------
@@ -562,8 +585,8 @@ pub fn property() -> Property {
     add!("decomposed_basis2-Q", "Q", db2_exact, 3000, 200_000, 64, RQ, "scales not in {0,1}, displacement with all components non-zero");
     add!("matrix4-Q", "Q", m4_exact::<Q>, 3000, 200_000, 192, &[("affine-generic", 100), ("projective", 100), ("affine-times-scalar", 80), ("singular", 50)], "linear parts with all entries non-zero");
     add!("matrix4-Fp", "Fp", m4_exact::<Fp>, 3000, 200_000, 192, &[("affine-generic", 100), ("projective", 100), ("affine-times-scalar", 80), ("singular", 50)], "linear parts with all entries non-zero");
-    add!("matrix3-Q", "Q", m3_exact::<Q>, 3000, 200_000, 192, &[("generic", 100), ("singular", 50)], "linear parts with all entries non-zero");
-    add!("matrix3-Fp", "Fp", m3_exact::<Fp>, 3000, 200_000, 256, &[("generic", 100), ("singular", 50)], "linear parts with all entries non-zero");
+    add!("matrix3-Q", "Q", m3_exact::<Q>, 3000, 200_000, 320, &[("generic", 100), ("projective-2d", 100), ("singular", 50)], "linear parts with all entries non-zero");
+    add!("matrix3-Fp", "Fp", m3_exact::<Fp>, 3000, 200_000, 320, &[("generic", 100), ("projective-2d", 100), ("singular", 50)], "linear parts with all entries non-zero");
     const SING: &[(&str, u32)] = &[("columns-0-1", 200), ("columns-0-2", 200), ("columns-1-2", 200)];
     add!("matrix3_singular-f64", "f64", matrix3_singular_f64, 4000, 200_000, 72, SING, "every generated matrix (one column an exact power-of-two multiple of another; generic inexact entries)");
     add!("matrix3_singular-f32", "f32", matrix3_singular_f32, 4000, 200_000, 72, SING, "every generated matrix (one column an exact power-of-two multiple of another; generic inexact entries)");
